@@ -215,6 +215,9 @@ def fixed_range_tables(ctx) -> dict[str, dict[int, Obj]]:
       t = captured.get('table')
       if not isinstance(t, dict):
         raise index.AnalysisError(f'{fi.fq}: the fixed output range table is no longer foldable')
+      for bits, o in t.items():
+        if not isinstance(o, Obj) or not all(isinstance(o.fields.get(k), (int, float)) for k in ('scale', 'zero_point')):
+          raise index.AnalysisError(f'{fi.fq}: fixed range entry for {bits} bits does not fold to numbers: {o!r}')
       out[op.name] = t
   return out
 
